@@ -901,6 +901,19 @@ func replayCase(s *search, path string) {
 		rep.EngineError("cannot read replay: %v", err)
 		return
 	}
+	var head struct {
+		Signature string `json:"signature"`
+	}
+	_ = json.Unmarshal(b, &head)
+	if strings.HasPrefix(head.Signature, "ConvertTo") || strings.Contains(head.Signature, "result-depends-on-the-destination-name") {
+		// the two stateless families are small: they are run again as a whole
+		pathConversionCheck(rep)
+		_ = os.MkdirAll(s.runDir+"/w0/r", 0o755)
+		rep.Coverage["name_resemblance_probes"] = namesDoNotMatter(rep, s.runDir+"/w0/r")
+		rep.Coverage["states"], rep.Coverage["transitions"], rep.Coverage["exhaustive"] = 0, 0, false
+		rep.Coverage["traces_validated_against_impl"] = 0
+		return
+	}
 	var f struct {
 		Signature string `json:"signature"`
 		Replay    struct {
